@@ -188,11 +188,14 @@ impl Check for C04 {
         let max = ant_networking::MAX_PACKET_SIZE;
         for _ in 0..10 {
             let item = { let k = *KINDS.choose(&mut cx.rng).expect("nonempty"); make_item(&mut cx.rng, k) };
-            let (label, rec): (&str, Record) = match cx.rng.gen_range(0..8) {
-                0 | 1 => ("valid", item.plain_record.clone()),
-                2 => {
+            let (label, rec): (&str, Record) = match cx.rng.gen_range(0..9) {
+                0 => ("valid", item.plain_record.clone()),
+                1 | 2 => {
                     let n = *[max - 1, max, max + 1].choose(&mut cx.rng).expect("nonempty");
-                    let mut v = crate::c01::header(RecordKind::Chunk);
+                    // every kind tag, including the ones that carry a payment
+                    let kind = *[RecordKind::Chunk, RecordKind::ChunkWithPayment, RecordKind::Register, RecordKind::RegisterWithPayment, RecordKind::Scratchpad, RecordKind::ScratchpadWithPayment, RecordKind::Transaction, RecordKind::TransactionWithPayment].choose(&mut cx.rng).expect("nonempty");
+                    cx.count(&format!("raw-put:oversized:{kind:?}"));
+                    let mut v = crate::c01::header(kind);
                     v.resize(n, 7u8);
                     ("oversized", gen::record(RecordKey::from(gen::bytes(&mut cx.rng, 32)), v))
                 }
@@ -207,6 +210,7 @@ impl Check for C04 {
                     let proof = build_proof(&mut cx.rng, &env, item.content, 3, Conds::all(), sim.stub.as_ref().expect("stub"));
                     ("valid-with-payment", (item.paid_record)(&proof))
                 }
+                7 => ("valid", item.plain_record.clone()),
                 _ => {
                     let mut r = item.plain_record.clone();
                     r.key = RecordKey::from(gen::bytes(&mut cx.rng, 32));
